@@ -5,6 +5,7 @@ appear - is enumerated up to a bound).
 from __future__ import annotations
 
 import itertools
+from fractions import Fraction
 
 from vf.xlift.env import Env
 
@@ -70,6 +71,17 @@ def check_simulation_result(env, ins, outs, label):
                     for i in range(len(ins)):
                         vals.append(((mapname, "twice", o, i), g.get(o, [env.const(0)] * len(ins))[i] - g2.get(o, [env.const(0)] * len(ins))[i]))
                 env.check_all_zero(f"{name}.{mapname}-idempotent[{label}]", vals, note="applying the mapping again changes nothing")
+    # exact zeros: a column (then a single entry) that is zero for every input still has its image listed, with weight 0
+    for zlabel, zero in (("zero-column", lambda i, j: j == 0), ("zero-last-column", lambda i, j: j == len(outs) - 1), ("zero-entry", lambda i, j: (i, j) == (0, 0))):
+        A0 = np.empty((len(ins), len(outs)), dtype=object)
+        for i in range(len(ins)):
+            for j in range(len(outs)):
+                A0[i, j] = env.const(0) if zero(i, j) else env.const(Fraction(7 * i + j + 1, 13))     # concrete weights: no symbolic branching here
+        r0 = SimulationResult(A0, "probability", inputs=I, outputs=O)
+        for mapname, f in (("threshold", thr), ("parity", par)):
+            for invert in (False, True):
+                m = getattr(r0, f"apply_{mapname}_mapping")(invert=invert)
+                _check_mapped(env, name, f"{label};{zlabel}", mapname, invert, f, ins, outs, A0, m)
     amp = SimulationResult(A, "probability_amplitude", inputs=I, outputs=O)
     for mapname in ("threshold", "parity"):
         try:
@@ -165,19 +177,25 @@ def check_errors(env):
         env.check_true(f"{name}.errors[{label}]", raises(f, exc), note="invalid construction / lookup is rejected with the documented error", model=dict(case=label))
 
 
-def _run(mode, tier, shard, nshards):
-    env = Env(mode)
+def my_shapes(tier, shard, nshards):
     k = 0
     for ins, outs in shapes(tier):
         k += 1
-        if k % nshards != shard:
+        if k % nshards == shard:
+            yield ins, outs
+
+
+def _run(mode, tier, shard, nshards, only=None):
+    """only = index of one shape of this shard (symbolic paths are explored per shape), -1 = the error cases, None = everything"""
+    env = Env(mode)
+    for idx, (ins, outs) in enumerate(my_shapes(tier, shard, nshards)):
+        if only is not None and idx != only:
             continue
         label = f"in={ins};out={outs}"
         check_simulation_result(env, ins, outs, label)
         if len(ins) == 1:
             check_sampling_result(env, outs, label)
-            zero = outs + [(5, 5)]
-    if shard == 0:
+    if shard == 0 and only in (None, -1):
         check_errors(env)
     return env.obligations
 
@@ -187,10 +205,17 @@ def unit(mode="exact", tier="quick", seed=0, shard=0, nshards=1):
     agg = OrderedDict()
     if mode == "exact":
         from vf.xlift import hook
-        for path, log, res in hook.run_paths(lambda: _run(mode, tier, shard, nshards)):
-            obs = res[1] if res[0] == "ok" else [dict(name="vf/tasks/t_results.py#xsym.runs", kind="xsym", result="refuted", backend="xlift", ms=0,
-                                                      note=f"raised {type(res[1]).__name__}: {res[1]}", model=dict(shard=shard))]
-            _merge(agg, obs)
+        from vf.xlift.field import Undecided
+        nsh = len(list(my_shapes(tier, shard, nshards)))
+        for only in list(range(nsh)) + [-1]:
+            try:
+                for path, log, res in hook.run_paths(lambda: _run(mode, tier, shard, nshards, only), max_paths=48):
+                    obs = res[1] if res[0] == "ok" else [dict(name="vf/tasks/t_results.py#xsym.runs", kind="xsym", result="refuted", backend="xlift", ms=0,
+                                                              note=f"raised {type(res[1]).__name__}: {res[1]}", model=dict(shard=shard, shape=only))]
+                    _merge(agg, obs)
+            except Undecided as e:
+                # the code under test branches on the symbolic weights too often to enumerate: undecided for this shape (never a violation)
+                _merge(agg, [dict(name=f"vf/tasks/t_results.py#xsym.paths[shape {only}]", kind="xsym", result="unknown", backend="xlift", ms=0, note=f"{e}", reason=str(e))])
     else:
         _merge(agg, _run(mode, tier, shard, nshards))
     obligations = list(agg.values())
